@@ -178,3 +178,52 @@ def apply_udiff(d: str, f: str):
     if out is None:
         return None
     return unlines(out)
+
+
+# ------------------------------------------------------------------------------------------------
+# helpers for the finding-class predictions of harness/c03.py (not part of the transcription of apply_udiff)
+# ------------------------------------------------------------------------------------------------
+def failing_hunk(d: str, f: str):
+    """None if the diff applies; "parse" if it is malformed; else (ia, la) = 0-based first old line and old length of the
+    first hunk that does not apply"""
+    hs = parse_diff(text_lines(d))
+    if hs is None:
+        return "parse"
+    rest, pos, posb = text_lines(f), 0, 0
+    for ia, la, ib, lb, body in hs:
+        k = ia - pos
+        if ia < pos or ib != posb + k or len(rest) < k:
+            return (ia, la)
+        r = apply_body(body, rest[k:])
+        if r is None:
+            return (ia, la)
+        rest = r[1]
+        pos, posb = ia + la, ib + lb
+    return None
+
+
+def apply_udiff_split_world(d: str, f: str):
+    """apply the diff to f seen as f.split("\n") (the empty string after a final newline IS a line), joined back with
+    "\n": the world in which PyprojectWriter computes its diff"""
+    hs = parse_diff(text_lines(d))
+    if hs is None:
+        return None
+    out = apply_hunks(hs, f.split("\n"))
+    return None if out is None else "\n".join(out)
+
+
+def fold(diffs, text, apply=apply_udiff):
+    cur = text
+    for d in diffs:
+        cur = apply(d, cur)
+        if cur is None:
+            return None
+    return cur
+
+
+def first_exotic_lf_line(t: str):
+    """0-based index, among the lines of t split at "\n" only, of the first line holding an exotic boundary; None if none"""
+    for i, l in enumerate(t.split("\n")):
+        if has_exotic(l + "\n"):
+            return i
+    return None
